@@ -138,7 +138,9 @@ class GateReplacer(Visitor):
         new_parameters = {
             name: self.visit(param) for name, param in gate.parameters.items()
         }
-        new_gate = GateStatement(gate.gate_def, new_parameters)
+        # Calling the definition re-validates the substituted arguments
+        # against the kinds of its parameters.
+        new_gate = gate.gate_def(*new_parameters.values())
         return replace_gate(new_gate, self.macros)
 
     def visit_Parameter(self, param: Parameter):
@@ -155,6 +157,8 @@ class GateReplacer(Visitor):
         """This happens when the user indexes a qubit register."""
         alias_from = self.visit(qubit.alias_from)
         alias_index = filter_float(self.visit(qubit.alias_index))
+        if not isinstance(alias_from, (Register, Parameter)):
+            raise JaqalError(f"Cannot index {alias_from}: it is not a register")
         return alias_from[alias_index]
 
 
